@@ -227,7 +227,7 @@ def parse_module(text):
         s = ln.strip()
         if not s or s.startswith(';'): continue
         if cur is None:
-            if s.startswith('source_filename') or s.startswith('target ') or s.startswith('attributes ') or s.startswith('!'):
+            if s.startswith('source_filename') or s.startswith('target ') or s.startswith('attributes ') or s.startswith('!') or s.startswith('$'):
                 continue
             if s.startswith('%') and ' = type ' in s:
                 toks = tokenize(s); p = P(toks)
